@@ -175,7 +175,28 @@ def sessStep (s : S) (f : List String) : S × List String :=
   | ["bufsize", n] => match n.toNat? with
     | some n => ({ s with bufSize := n }, [])
     | none => (s, ["bad-op bufsize"])
-  | ["init", cid, clean, m1, m2] =>
+  | ["sgate"] => (s, ["unsupported slow Save of the Persistence"])
+  | ["sgo"] => (s, ["unsupported slow Save of the Persistence"])
+  | ["initx", cid, variant] =>
+    -- InitSession with a Config it must refuse: nothing is stored, the state stays as it was
+    let base : Cfg := { atLeastOnceMax := 4, exactlyOnceMax := 4 }
+    let cfg? : Option Cfg := match variant with
+      | "nuluser" => some { base with userName := [0x61, 0, 0x62] }
+      | "baduser" => some { base with userName := [0xff, 0xfe] }
+      | "bigpass" => some { base with password := some (List.replicate 65536 0) }
+      | "willnotopic" => some { base with will := { message := some [0x6d] } }
+      | "badwilltopic" => some { base with will := { topic := [0x61, 0], message := some [0x6d] } }
+      | "bigwill" => some { base with will := { topic := [0x77], message := some (List.replicate 65536 0) } }
+      | _ => none
+    match ofHex cid, cfg? with
+    | some cid, some cfg =>
+      match s.initSession cid cfg with
+      | (s, none) => done s ["init ok"] false
+      | (s, some e) => done s [s!"init err {errStr e}"] false
+    | some _, none => if variant == "nodialer" then (s, ["init err other"]) else (s, ["bad-op initx"])
+    | _, _ => (s, ["bad-op initx"])
+  | [op@"init", cid, clean, m1, m2] | [op@"vinit", cid, clean, m1, m2] =>
+    let _ := op
     match ofHex cid, m1.toInt?, m2.toInt? with
     | some cid, some m1, some m2 =>
       let cfg : Cfg := { cleanSession := clean == "1", atLeastOnceMax := m1, exactlyOnceMax := m2 }
